@@ -18,16 +18,30 @@ pub fn analyze_order(egraph: &EGraph, enode: &Expr) -> OrderKey {
         List(keys) => keys.clone(),
         // scanned table is ordered by primary key in secondary storage
         Scan([_, cols, _]) if egraph.analysis.config.table_is_sorted_by_primary_key => {
-            let primary_key = egraph[*cols].as_list().iter().find(|id| {
-                let catalog = &egraph.analysis.catalog;
-                match catalog.get_column(&egraph[**id].as_column()) {
-                    Some(col) => col.is_primary(),
-                    None => false,
-                }
-            });
-            match primary_key {
-                Some(id) => Box::new([*id]),
-                None => Box::new([]),
+            // the scan merges the sorted RowSets on all key columns (in column order), which
+            // it can only do when all of them are scanned; the rows are then ordered by the
+            // first key column
+            let catalog = &egraph.analysis.catalog;
+            let cols = egraph[*cols].as_list();
+            let table = cols
+                .first()
+                .and_then(|id| catalog.get_table(&egraph[*id].as_column().table()));
+            let key_ids = match table {
+                Some(t) => t
+                    .all_columns()
+                    .into_iter()
+                    .filter(|(_, c)| c.is_primary())
+                    .map(|(id, _)| id)
+                    .collect::<Vec<_>>(),
+                None => vec![],
+            };
+            let scanned = |key: &u32| {
+                cols.iter()
+                    .find(|id| egraph[**id].as_column().column_id == *key)
+            };
+            match key_ids.first().and_then(scanned) {
+                Some(id) if key_ids.iter().all(|k| scanned(k).is_some()) => Box::new([*id]),
+                _ => Box::new([]),
             }
         }
         // plans that sort rows
